@@ -68,6 +68,20 @@ def qf(fr):
     return f"(({fr.numerator}) / {fr.denominator})" if fr.numerator < 0 else f"({fr.numerator} / {fr.denominator})"
 
 
+def prelude(rnd, obj, xa):
+    """operations on the object before normalize() that must not change what normalize() does"""
+    pre = rnd.choice(["none", "none", "generate", "evaluate", "generate+evaluate", "normalize_twice"])
+    with numpy.errstate(all="ignore"):
+        if "generate" in pre:
+            obj.generate(rnd.choice([1, 3]), rng=numpy.random.default_rng(rnd.randrange(1000)))
+        if "evaluate" in pre:
+            obj.misfit(xa.copy())
+            obj.gradient(xa.copy())
+        if pre == "normalize_twice":
+            obj.normalize()
+    return pre
+
+
 def pdf_case(rnd, D):
     d = rnd.choice([1, 2, 3])
     kind = rnd.choice(["normal_scalar", "normal_vec", "normal_full", "laplace"])
@@ -79,6 +93,7 @@ def pdf_case(rnd, D):
         x = [v if abs(v - m) > 1e-6 else v + 0.125 for v, m in zip(x, mu)]
         xa = distgen.col(x)
         obj = D.Laplace(mua, distgen.col(b))
+        pre = prelude(rnd, obj, xa)
         obj.normalize()
         term = f"misfit (laplace {ql(mu)} (map Rinv {ql(b)}) (laplace_const {ql(b)})) {ql(x)}"
         want = sum(math.log(2 * bi) + abs(xi - mi) / bi for bi, xi, mi in zip(b, x, mu))
@@ -87,6 +102,7 @@ def pdf_case(rnd, D):
         a = numpy.array([[distgen.dy(rnd, -1, 1) for _ in range(d)] for _ in range(d)])
         cov = a @ a.T + numpy.diag([distgen.pos(rnd) for _ in range(d)])
         obj = D.Normal(mua, cov.copy())
+        pre = prelude(rnd, obj, xa)
         obj.normalize()
         P = numpy.asarray(obj.inverse_covariance)
         det = det_fraction(cov.tolist())
@@ -102,11 +118,14 @@ def pdf_case(rnd, D):
         else:
             v = [distgen.pos(rnd) for _ in range(d)]
             obj = D.Normal(mua, distgen.col(v))
+        pre = prelude(rnd, obj, xa)
         obj.normalize()
         term = f"misfit (normal_diag {ql(mu)} (map Rinv {ql(v)}) (normal_const {ql(v)})) {ql(x)}"
         want = sum(0.5 * math.log(2 * math.pi * vi) + (xi - mi) ** 2 / (2 * vi) for vi, xi, mi in zip(v, x, mu))
         desc = f"Normal(mu={mu}, var={v}, {kind})"
     got = float(obj.misfit(xa))
+    if pre != "none":
+        desc += f" after {pre}"
     probs = []
     if not (abs(got - want) <= 1e-9 * max(1.0, abs(want))):
         probs.append((f"not-neg-log-pdf-{type(obj).__name__}", f"{desc}: normalised misfit at {x} is {got}, -log(textbook density) is {want}"))
